@@ -1110,14 +1110,23 @@ func (li *lexInterp) stmt(st ast.Stmt, in []*lexState, fr *lexFrame) lexFlow {
 			fl.gotos[k] = append(fl.gotos[k], v...)
 		}
 	case *ast.SwitchStmt:
-		if s.Tag != nil || s.Init != nil {
-			if li.touchesStmt(s) {
-				li.undecided(fr, s, "tagged switch in the lexer")
-			}
-			fl.next = in
-			return fl
-		}
 		rem := in
+		if s.Init != nil {
+			rem = li.stmt(s.Init, rem, fr).next
+		}
+		// `switch x { case a, b: }` is `switch { case x == a, x == b: }` when evaluating x has no effect
+		caseCond := func(ce ast.Expr) ast.Expr { return ce }
+		if s.Tag != nil {
+			if li.touchesStmt(&ast.ExprStmt{X: s.Tag}) {
+				li.undecided(fr, s, "switch on an expression that modifies the lexer state")
+				fl.next = in
+				return fl
+			}
+			tag := s.Tag
+			caseCond = func(ce ast.Expr) ast.Expr {
+				return &ast.BinaryExpr{X: tag, OpPos: ce.Pos(), Op: token.EQL, Y: ce}
+			}
+		}
 		hasDefault := false
 		var defBody []ast.Stmt
 		for _, cl := range s.Body.List {
@@ -1128,7 +1137,7 @@ func (li *lexInterp) stmt(st ast.Stmt, in []*lexState, fr *lexFrame) lexFlow {
 			}
 			var tAll []*lexState
 			for _, ce := range cc.List {
-				t, f := li.cond(ce, rem, fr)
+				t, f := li.cond(caseCond(ce), rem, fr)
 				tAll = append(tAll, t...)
 				rem = f
 			}
